@@ -35,7 +35,8 @@ if [ $SUITE = 1 ]; then
   echo "== suite on patched" >>"$LOG"
   cargo nextest run --workspace --no-fail-fast --tool-config-file pb:/w/lib/nextest.toml --profile pb --test-threads 8 --retries 2 --offline --build-jobs 8 > "$S/suite.log" 2>&1
   SUITE_RES="$(grep -E '^ +Summary' "$S/suite.log" | tail -1 | sed 's/^ *//')"
-  grep -E "^ +FAIL" "$S/suite.log" | sort -u | sed 's/\[.*\] *([0-9/]*) //' >>"$LOG"
+  # tests that failed on their last try (with --retries the final line reads "TRY 3 FAIL")
+  grep -E "^ +(TRY 3 )?FAIL" "$S/suite.log" | sed 's/.*) //' | sort -u >>"$LOG"
   echo "suite: $SUITE_RES" >>"$LOG"
   rm -f "$S/suite.log"
 fi
